@@ -179,7 +179,7 @@ func (r *runner) close() {
 		r.m.Stop(r.ctx)
 		select {
 		case <-r.runDone:
-		case <-time.After(5 * time.Second):
+		case <-hx.After(5 * time.Second):
 		}
 		r.m = nil
 	}
@@ -247,7 +247,7 @@ func (r *runner) waitRun() bool {
 	select {
 	case <-ch:
 		return true
-	case <-time.After(10 * time.Second):
+	case <-hx.After(10 * time.Second):
 		return false
 	}
 }
